@@ -59,8 +59,12 @@ engine:
 punctuator:
   half_shape:
     '/': ['、', '/', '÷']
+    ',': { commit: '，' }
+    '.': '。'
   full_shape:
     '/': ['、', '/', '÷']
+    ',': { commit: '，' }
+    '.': '。'
 speller:
   alphabet: 'abcdefghijklmnopqrstuvwxyz'
   delimiter: " '"
@@ -158,6 +162,11 @@ def gen_history(rng, n_calls, reopen_bias=0.06):
                 L.append("select %d" % rng.randrange(0, 3))
                 for _ in range(rng.randrange(0, 3)):
                     L.append("key %d 0" % XK_SPACE)
+            if rng.random() < 0.25:
+                # a punctuation that is committed directly: a second commit right behind the first, within the same second,
+                # with nothing to store of its own — the key still has to make the first one durable
+                for _ in range(rng.choice([1, 1, 2])):
+                    L.append("key %d 0" % ord(rng.choice(",.")))
             if rng.random() < 0.4:
                 if rng.random() < 0.8:
                     L.append("tick %d" % rng.choice([0, 1, 2, 3, 3, 4, 4, 5, 9]))
